@@ -147,7 +147,7 @@ func init() {
 		Level: "proof",
 		Funcs: []string{"tcell.(*tScreen).drawCell", "tcell.(*tScreen).draw", "tcell.(*CellBuffer).Dirty", "tcell.(*CellBuffer).SetDirty", "tcell.(*CellBuffer).LockCell", "tcell.(*CellBuffer).UnlockCell",
 			"tcell.(*CellBuffer).SetContent", "tcell.(*CellBuffer).GetContent", "tcell.(*CellBuffer).Fill", "tcell.(*CellBuffer).Invalidate"},
-		Custom: []func(*PropRun){c13LockRegion, c13Corner},
+		Custom: []func(*PropRun){c13LockRegion, c13Corner, c13PaintedClean},
 		Trusted: []string{"emission primitives (tScreen.TPuts, writeString, sendFgBg; terminfo TGoto/TParm/TColor): only their frame is assumed here (spec/trusted/emit.spec); what they emit is decided by C07/C15/C17",
 			"Tty.Write / io.Writer.Write report a count within bounds and touch no verified state (assumed)"},
 		Assume: []string{"drawCell is verified for calls on cells that are NOT dirty (unchanged, locked, or off the buffer): no output of any kind, no state change, width reported; the path that paints a dirty cell exceeds the verifier's path budget: its frame (only the cell itself and, for the auto-margin corner, its left neighbour change) and 'returns at least 1' are ASSUMED clauses",
